@@ -1,23 +1,33 @@
 #!/usr/bin/env python3
-"""wtrun.py <patch.diff> <name> <checks...>: applies a change in a scratch worktree of /repo (never in /repo itself), points the harness
-at it through RULER_SRC, runs the named checks and prints what they reported.  Used for trying out changes while /repo is in use."""
+"""wtrun.py <patch.diff|-> <name> <checks...>: applies a change in a scratch worktree of /repo (never in /repo itself), points the harness
+at it through RULER_SRC, runs the named checks and prints what they reported.  With VERIF_DIR=<copy of /verif> the checks of that copy are
+used (parallel workers).  When the patch is /verif/seeded/<id>/patch.diff the result is recorded in /verif/seeded/<id>/result.json.
+Note: C10 (real-file-system part) and C19 use the `ruler_real` binary built from /repo itself, so they need lib/seedrun.py."""
 import sys, os, subprocess, re, json, time
 patch, name, props = sys.argv[1], sys.argv[2], sys.argv[3:]
+vdir = os.environ.get('VERIF_DIR', '/verif')
 wt = '/tmp/wt/run_' + name
 def sh(c, env=None):
     e = dict(os.environ); e.update(env or {})
     return subprocess.run(c, shell=True, stdout=subprocess.PIPE, stderr=subprocess.STDOUT, text=True, env=e)
 sh('git -C /repo worktree remove --force %s' % wt)
 if sh('git -C /repo worktree add -q --detach %s HEAD' % wt).returncode != 0: print('cannot create worktree'); sys.exit(2)
+res = {}
 try:
     if patch != '-' and sh('git -C %s apply %s' % (wt, patch)).returncode != 0: print('patch does not apply'); sys.exit(2)
     for p in props:
         t0 = time.time()
-        r = sh('cd /verif && ./check %s' % p, env={'RULER_SRC': wt + '/src'})
+        r = sh('cd %s && ./check %s' % (vdir, p), env={'RULER_SRC': wt + '/src'})
         lines = [l for l in r.stdout.split('\n') if re.match(r'VIOLATION|DIVERGENCE|TOOL-ERROR|KNOWN', l)]
-        v = sorted(set(re.sub(r'replay=\S+', '', l) for l in lines if l.startswith('VIOLATION')))[:4]
-        print(name, p, 'exit', r.returncode, v, 'div', len([l for l in lines if l.startswith('DIVERGENCE')]), [l[:200] for l in lines if l.startswith('TOOL')][:1], '%ds' % (time.time() - t0), flush=True)
+        v = sorted(set(re.sub(r'replay=\S+', '', l) for l in lines if l.startswith('VIOLATION')))[:6]
+        res[p] = {'exit': r.returncode, 'wall_s': round(time.time() - t0), 'violations': v, 'divergences': len([l for l in lines if l.startswith('DIVERGENCE')]),
+                  'tool_error': [l[:300] for l in lines if l.startswith('TOOL-ERROR')][:1]}
+        print(name, p, 'exit', r.returncode, v[:3], 'div', res[p]['divergences'], res[p]['tool_error'], '%ds' % (time.time() - t0), flush=True)
 finally:
     sh('git -C /repo worktree remove --force %s' % wt)
-    sh('git -C /verif checkout -- evidence')
-    # rebuild against /repo next time
+    if vdir == '/verif': sh('git -C /verif checkout -- evidence')
+m = re.match(r'/verif/seeded/([^/]+)/patch.diff$', patch)
+if m and res:
+    f = '/verif/seeded/%s/result.json' % m.group(1)
+    old = json.load(open(f)) if os.path.exists(f) else {}
+    old.update(res); json.dump(old, open(f, 'w'), indent=1)
